@@ -423,9 +423,11 @@ static HAWK_INLINE hawk_ooi_t tio_read_uchars (
 			 * shift bytes in the buffer to the head. */
 			HAWK_ASSERT (mlen <= 0);
 			tio->inbuf_len = tio->inbuf_len - tio->inbuf_cur;
-			HAWK_MEMCPY (&tio->in.buf.ptr[0],
-			            &tio->in.buf.ptr[tio->inbuf_cur],
-			            tio->inbuf_len * HAWK_SIZEOF(tio->in.buf.ptr[0]));
+			/* the source and the destination overlap when the remaining
+			 * bytes outnumber the bytes consumed so far. */
+			HAWK_MEMMOVE (&tio->in.buf.ptr[0],
+			             &tio->in.buf.ptr[tio->inbuf_cur],
+			             tio->inbuf_len * HAWK_SIZEOF(tio->in.buf.ptr[0]));
 			tio->inbuf_cur = 0;
 			goto getc_conv; /* and read more */
 		}
